@@ -1119,6 +1119,9 @@ func runC13(c *Ctx) {
 	// writer round trip on the model side (parse ∘ emit) for generated trees
 	c13WriterRoundTrip(c, r)
 
+	// the record writer (writeAtomic / os.WriteFile) under RLIMIT_FSIZE vs writeCut
+	c13WriterStream(c, r)
+
 	t0 := time.Now()
 	nDirect := 1200
 	if c.Thorough {
